@@ -55,3 +55,20 @@ check('C05', 'E1', 'model_checking',
       'engine.io trusted; background handler tasks joined before comparing; '
       'argument shapes rotate across the product.',
       'DESIGN.md 6/C05')
+
+check('C06', 'E1+E2+E3', 'model_checking',
+      'explicit-state BFS with an ack ledger; exhaustive schedule '
+      'exploration of call() (virtual asyncio loop and baton-scheduled '
+      'threads)',
+      'All histories of connect/disconnect/loss/emit-with-callback/ACK for 2 '
+      'transports x 2 namespaces are explored to closure (ACK ids drawn from '
+      'every outstanding or used id of any client plus 0 and max+1, sent '
+      'from every transport on every namespace), for Server, AsyncServer and '
+      'AsyncServer with coroutine callbacks. call() is explored under every '
+      'order of {ACK, duplicate ACK, timeout, DISCONNECT, loss} on both '
+      'servers, and emit+coroutine-callback under every interleaving of '
+      'duplicate ACKs and disconnects.',
+      'per-connection emit counts capped (3/1/0 quick, 4/1/0 thorough); '
+      'thread schedules at event-operation granularity; an ACK racing the '
+      'timeout expiry may land either way.',
+      'DESIGN.md 6/C06')
